@@ -45,6 +45,30 @@ pub use crate::glr::{
     parser::GlrParser,
 };
 
+/// Verification hooks: public views of otherwise private items. Compiled only
+/// with the `verif` feature; adds no behaviour.
+#[cfg(feature = "verif")]
+pub mod verif {
+    #[cfg(feature = "glr")]
+    pub use crate::glr::gss::{Parent, SPPFTree, Tree, TreeData};
+
+    /// Public wrapper around the crate-private `error::error_expected`.
+    pub fn error_expected<'i, I, S, TK, C>(
+        input: &'i I,
+        file_name: &str,
+        context: &C,
+        expected: &[TK],
+    ) -> crate::Error
+    where
+        C: crate::Context<'i, I, S, TK>,
+        I: crate::Input + ?Sized,
+        S: crate::State,
+        TK: std::fmt::Debug,
+    {
+        crate::error::error_expected(input, file_name, context, expected)
+    }
+}
+
 // yansi styles for log messages.
 pub use crate::colors::*;
 
